@@ -345,13 +345,15 @@ class GroupedList(list):
             group_member in self.content[group_leader]
         ), f" - [GroupedList] {group_member} is not in {group_leader}"
 
-        # replacing in the list
-        group_idx = self.index(group_leader)
-        self[group_idx] = group_member
+        # checking that those values are distinct
+        if not is_equal(group_leader, group_member):
+            # replacing in the list
+            group_idx = self.index(group_leader)
+            self[group_idx] = group_member
 
-        # replacing in the dict
-        self.content.update({group_member: self.content[group_leader][:]})
-        self.content.pop(group_leader)
+            # replacing in the dict
+            self.content.update({group_member: self.content[group_leader][:]})
+            self.content.pop(group_leader)
 
         # sorting things up
         self.sort_by(self)
